@@ -854,6 +854,17 @@ fn validate_endpoint(endpoint: &str) -> Result<()> {
     // Ribbit endpoints don't use v1/ prefix, they use direct product paths like "wow/versions"
     // TACT endpoints might use v1/ but we'll handle that in the TACT client itself
 
+    // Reject path traversal: the endpoint becomes part of request URLs and of
+    // the cache key (a relative file path below the cache directory)
+    if endpoint
+        .split('/')
+        .any(|segment| segment == "." || segment == "..")
+    {
+        return Err(ProtocolError::InvalidEndpoint(
+            "Endpoint must not contain '.' or '..' path segments".to_string(),
+        ));
+    }
+
     // Check for suspicious characters
     for c in endpoint.chars() {
         if !c.is_alphanumeric() && !matches!(c, '/' | '_' | '-' | '.') {
